@@ -597,39 +597,7 @@ func checkQuantifier(c *Ctx, p *packages.Package, fd *ast.FuncDecl, rule string)
 		}
 		T := info.TypeOf(cl.List[0])
 		if isRune(T) {
-			// switch rep { case '?': x = ... }
-			for _, st := range cl.Body {
-				sw, ok := st.(*ast.SwitchStmt)
-				if !ok {
-					continue
-				}
-				for _, c2 := range sw.Body.List {
-					k2 := c2.(*ast.CaseClause)
-					for _, e := range k2.List {
-						rv, ok := constInt(info, e)
-						if !ok {
-							continue
-						}
-						seen[rune(rv)] = true
-						q := &quantEval{p: p, info: info, operand: operand, accs: map[types.Object]civ{}}
-						var got civ
-						okEval := false
-						for _, s2 := range k2.Body {
-							if as, ok := s2.(*ast.AssignStmt); ok && len(as.Rhs) == 1 {
-								got, okEval = q.count(as.Rhs[0])
-							}
-						}
-						w, known := want[rune(rv)]
-						if !known {
-							c.Fail(rule, fmt.Sprintf("%s: operator %q is a documented repetition operator", key, rune(rv)), k2.Pos(), "unknown operator")
-							continue
-						}
-						c.Check(rule, fmt.Sprintf("%s: %q repeats the operand %s times", key, rune(rv), w), k2.Pos(), okEval && got.String() == w.String(),
-							fmt.Sprintf("the expansion yields %s repetitions (%s)", got, q.err), fmt.Sprintf("a%c", rune(rv)))
-					}
-				}
-			}
-			continue
+			continue // the operator dispatch is located below, wherever it is written
 		}
 		// the range case: tuple[int,*int]
 		if _, tn := namedTypeName(T); tn != "tuple" {
@@ -844,7 +812,84 @@ func checkQuantifier(c *Ctx, p *packages.Package, fd *ast.FuncDecl, rule string)
 		c.Check(rule, key+": {n,m} repeats the operand between n and m times", cl.Pos(), gb.String() == wb.String(), fmt.Sprintf("the expansion yields %s repetitions", gb), "a{2,3}")
 		c.Check(rule, key+": {n,} repeats the operand n or more times", cl.Pos(), gu.String() == wu.String(), fmt.Sprintf("the expansion yields %s repetitions", gu), "a{2,}")
 	}
+	// the operator dispatch: for each of ? * +, the statements executed when the operator equals it, written as a case clause
+	// or as an `op == '?'` test, in the quantifier function or in a helper it calls
+	dispatchSeen := false
 	for _, r := range []rune{'?', '*', '+'} {
+		var body []ast.Stmt
+		var owner *ast.FuncDecl
+		var cur *ast.FuncDecl
+		AllFuncDecls(p, func(f *ast.FuncDecl) {
+			_ = f
+		})
+		reach := []*ast.FuncDecl{fd}
+		seenFn := map[*ast.FuncDecl]bool{fd: true}
+		for i := 0; i < len(reach) && i < 12; i++ {
+			cur = reach[i]
+			ast.Inspect(cur.Body, func(n ast.Node) bool {
+				switch x := n.(type) {
+				case *ast.CallExpr:
+					if fo, ok := objOf(info, x.Fun).(*types.Func); ok && fo.Pkg() == p.Types {
+						if hd := declOfFunc(p, fo); hd != nil && hd.Body != nil && !seenFn[hd] {
+							seenFn[hd] = true
+							reach = append(reach, hd)
+						}
+					}
+				case *ast.CaseClause:
+					for _, e := range x.List {
+						if v, ok := constInt(info, e); ok && rune(v) == r && isRune(info.TypeOf(e)) && body == nil {
+							body, owner = x.Body, cur
+						}
+					}
+				case *ast.IfStmt:
+					if b, ok := ast.Unparen(x.Cond).(*ast.BinaryExpr); ok && b.Op == token.EQL && body == nil {
+						for _, pair := range [][2]ast.Expr{{b.X, b.Y}, {b.Y, b.X}} {
+							if v, ok := constInt(info, pair[1]); ok && rune(v) == r && isRune(info.TypeOf(pair[0])) {
+								body, owner = x.Body.List, cur
+							}
+						}
+					}
+				}
+				return true
+			})
+		}
+		if body == nil {
+			continue
+		}
+		dispatchSeen = true
+		seen[r] = true
+		var opnd types.Object
+		if owner.Type.Params != nil && len(owner.Type.Params.List) > 0 && len(owner.Type.Params.List[0].Names) > 0 {
+			opnd = info.Defs[owner.Type.Params.List[0].Names[0]]
+		}
+		q := &quantEval{p: p, info: info, operand: opnd, accs: map[types.Object]civ{}}
+		var got civ
+		okEval := false
+		for _, s2 := range body {
+			switch st := s2.(type) {
+			case *ast.AssignStmt:
+				if len(st.Rhs) == 1 {
+					got, okEval = q.count(st.Rhs[0])
+				}
+			case *ast.ReturnStmt:
+				if len(st.Results) >= 1 {
+					got, okEval = q.count(st.Results[0])
+				}
+			}
+		}
+		w := want[r]
+		if !okEval {
+			c.Undecided(rule, fmt.Sprintf("%s: %q repeats the operand %s times", key, r, w), fd.Pos(), "the expression built for this operator was not understood: "+q.err)
+			continue
+		}
+		c.Check(rule, fmt.Sprintf("%s: %q repeats the operand %s times", key, r, w), fd.Pos(), got.String() == w.String(),
+			fmt.Sprintf("the expansion yields %s repetitions", got), fmt.Sprintf("a%c", r))
+	}
+	for _, r := range []rune{'?', '*', '+'} {
+		if !dispatchSeen {
+			c.Undecided(rule, fmt.Sprintf("%s handles %q", key, r), fd.Pos(), "no dispatch on the operator character was found in the quantifier function or its helpers")
+			continue
+		}
 		c.Check(rule, fmt.Sprintf("%s handles %q", key, r), fd.Pos(), seen[r], "no case for this operator: the quantified operand becomes nil")
 	}
 }
